@@ -9,6 +9,7 @@ import (
 	"os"
 	"os/exec"
 	"strings"
+	"time"
 
 	"github.com/theQRL/go-qrllib/common"
 	"github.com/theQRL/go-qrllib/dilithium"
@@ -423,6 +424,47 @@ func main() {
 				if l == len(dsm) && fill == 3 {
 					c.Sample(map[string]any{"input": what(), "outcome": o})
 				}
+			}
+		}})
+	// every case hashes (or, before the fix, should have hashed) 4 GiB: one chunk, i.e. one worker, one case at a time
+	giantLens := []uint64{1<<32 - 128, 1<<32 - 1, 1<<32 + 1, 1<<32 - 129, 1<<32 - 97, 1<<32 - 96, 1<<32 - 40, 1 << 32}
+	nGiantQuick := int64(2)
+	ck.Domains = append(ck.Domains, &drv.Domain{Name: "xmss-giant-message-lengths", Size: int64(len(giantLens)), Chunk: int64(len(giantLens)),
+		Desc: "xmss.Verify with a well-sized signature and a message of 2^32-128, 2^32-1 (thorough: eight lengths 2^32-129 .. 2^32+1) zero bytes (read-only no-reserve mapping; the lengths around which type || key || message overflows a 32-bit length): a result or an explicit refusal, never a runtime fault",
+		Run: func(c *drv.Ctx, lo, hi int64) {
+			initX(c.Seed)
+			for i := lo; i < hi; i++ {
+				c.At(i)
+				if c.Tier != "thorough" && i >= nGiantQuick {
+					continue // quick: 2^32-128, 2^32-1
+				}
+				giant, release := drv.GiantZeros(giantLens[i])
+				if giant == nil {
+					c.Cap("a 4 GiB no-reserve mapping was refused: xmss-giant-message-lengths skipped")
+					c.Outcome("skipped")
+					continue
+				}
+				pk := validXPK
+				pk[0] = 0 // SHA-256: the fastest of the three on 4 GiB
+				sig := append([]byte(nil), validXSig...)
+				what := func() string { return fmt.Sprintf("len(msg)=%d (zero bytes) well-sized signature, pk of height 4 declaring SHA-256", giantLens[i]) }
+				stop := make(chan struct{})
+				go func() { // keep-alive: hashing 4 GiB takes seconds
+					for {
+						select {
+						case <-stop:
+							return
+						case <-time.After(5 * time.Second):
+							c.Tick()
+						}
+					}
+				}()
+				o := run(c, i, "xmss.Verify", true, what, func() string { return fmt.Sprint(xmss.Verify(giant, sig, pk)) })
+				close(stop)
+				release()
+				c.Eval(1)
+				c.Nontrivial(1)
+				c.Outcome(o)
 			}
 		}})
 	ck.Domains = append(ck.Domains, &drv.Domain{Name: "dilithium-spare-capacity", Size: 80, Chunk: 4,
